@@ -5,32 +5,62 @@ import json
 
 from .. import core, enc
 from ..runner import Result
-from .c01 import type_optional_only, enum_ambiguous
+from .c01 import type_optional_only
 
 ID = "C13"
 LEVEL = "proof"
 LEVEL_TEXT = ("Kernel-checked theorem C13.passthroughG / passthrough_core: for every class environment, every union-free or "
               "Optional-only annotation of U and every valid value of exactly the annotated classes (any size and depth), "
               "unmarshal(T, v) = v; stated for any notion of validity accepted by the leaf routines, so that with conformance "
-              "(C03) it yields idempotence. Tied to /repo by the per-run correspondence; pass-through and idempotence are also "
-              "evaluated directly on the real library on adversarial values (strings that read as JSON/numbers/dates/'null', "
-              "2-character strings and 2-element members first, str-mixin enum members).")
+              "(C03) it yields idempotence. Enum members pass through for EVERY environment and every leaves (C13.enumPass / "
+              "umEnum_member: a member of a str-mixin enum is returned before serdes.load reads it as text, also when its text is "
+              "the JSON spelling of another member's value); no condition on the enum classes is left. Tied to /repo by the "
+              "per-run correspondence; pass-through and idempotence are also evaluated directly on the real library on "
+              "adversarial values (strings that read as JSON/numbers/dates/'null', 2-character strings and 2-element members "
+              "first, str-mixin enum members including shadowed ones such as '\"x\"' beside 'x').")
 LEVEL_NOTE = ("Trusted: Lean kernel, axioms propext/Classical.choice/Quot.sound; hand-written model tied by correspondence; "
-              "PassLaws hypothesis for leaves outside the core {int,bool,float,str} and for str-mixin enum members.")
+              "PassLaws hypothesis (leafPass, litPass) for leaves outside the core {int,bool,float,str}.")
 TECHNIQUE = "Lean 4 proof by induction on value depth over the executable model; differential correspondence; direct pass-through and idempotence oracle"
 DESIGN_REF = "DESIGN.md §5 C13"
 MODULES = ["TypelibModel.Props.C13", "TypelibModel.Props.Dispatch"]
 TABLES = True
 RULE = ("programs with union-free / Optional-only annotations; valid values of exactly the annotated classes, biased to "
         "text that reads as JSON / numbers / dates / 'null', 2-character strings, 2-element first members, str-mixin enum "
-        "members; plus the C03 junk pool for the idempotence form; non-trivial = composite annotation")
+        "members (half of the generated str-mixin enums get a member whose text is the JSON spelling of another member's "
+        "value, with extra ops aimed at that enum); plus the C03 junk pool for the idempotence form; non-trivial = composite "
+        "annotation")
 ASSUMPTIONS = ["equality is class-exact structural equality of the encoded values; sets compared up to order"]
 TRUSTED = ["harness encoders/generators", "hand-written model tied by correspondence"]
+
+
+def shadow_bias(g, prog):
+    """Give half of the str-mixin enums a member whose text is the JSON spelling of another member's value
+    ('"x"' beside 'x'), before or after it; returns the ids of the enums now shadowed."""
+    r = g.r
+    out = []
+    for c in prog["classes"]:
+        if c["kind"] != "enum" or c["mixin"] != "str" or r.random() < 0.5:
+            continue
+        vals = [v for _, v in c["members"]]
+        base = r.choice(vals)
+        twin = json.dumps(base)
+        if twin in vals:
+            continue
+        vals.insert(r.choice([0, len(vals)]), twin)
+        c["members"] = [[f"m{i}", v] for i, v in enumerate(vals)]
+        out.append(c["id"])
+    return out
 
 
 def make_ops(depth):
     def f(g, prog):
         ops = []
+        for cid in shadow_bias(g, prog):
+            for ts in (["enum", cid], ["union", [["enum", cid], ["none"]], {"sp": "optional"}],
+                       ["coll", "list", ["enum", cid], {"sp": g._sp("list")}],
+                       ["dict", ["enum", cid], ["int"], {"sp": g._sp("dict")}]):
+                for _ in range(2):
+                    ops.append({"op": "um", "ty": ts, "val": g.value(ts, budget=depth), "obs": ["idem"], "valid": True})
         for _ in range(3):
             ts = g.ty(depth)
             for _ in range(3):
@@ -54,38 +84,57 @@ def explore(ctx):
         res.case(case, op["ty"][0] not in enc.SCALAR_EXPR)
         inp = {"prog": job["prog"], "ty": op["ty"], "val": op["val"], **case}
         core.compare(res, "um", inp, r_, m_)
-        if op["valid"] and type_optional_only(op["ty"], job["prog"]) and not enum_shadow(job["prog"]):
+        shadowed = op["valid"] and has_shadow_member(op["val"], job["prog"])
+        if shadowed:
+            res.count("gen:valid-value-with-shadowed-str-enum-member")
+        if op["valid"] and type_optional_only(op["ty"], job["prog"]):
             if not ("ok" in r_ and enc.canon(r_["ok"]) == enc.canon(op["val"])):
                 res.failures.append({"what": "unmarshal(T, v) != v for a valid v", "input": inp, "real": {k: r_[k] for k in r_ if k in ("ok", "err", "msg")}})
             else:
                 res.count("oracle:passthrough-ok")
+                if shadowed:
+                    res.count("oracle:passthrough-ok(shadowed-str-enum-member)")
         if "ok" in r_ and "again" in r_:
             a = r_["again"]
             if "ok" in a and enc.canon(a["ok"]) == enc.canon(r_["ok"]):
                 res.count("oracle:idempotent")
-            elif enum_shadow(job["prog"]):
-                res.count("oracle:excluded-enum-shadow")
             else:
                 res.failures.append({"what": "unmarshal(T, unmarshal(T, x)) != unmarshal(T, x)", "input": inp,
                                      "real": {"first": r_["ok"], "second": a}})
     return res
 
 
-def enum_shadow(prog):
-    """A str-mixin enum member whose text decodes (JSON / literal) to the value of ANOTHER member: by-value lookup
-    of the decoded text wins over the member itself (excluded by the theorem's enumPass hypothesis)."""
+def shadow_members(prog):
+    """(class id, member index) of the str-mixin enum members whose text decodes (JSON) to the value of ANOTHER member
+    of the same enum.  Until 9645d73 such a member was read as text and came back as the other member; it must pass
+    through like every other valid value (no exclusion)."""
+    out = set()
     for c in prog["classes"]:
         if c["kind"] != "enum" or c["mixin"] != "str":
             continue
         vals = [v for _, v in c["members"]]
-        for v in vals:
+        for i, v in enumerate(vals):
             try:
                 d = json.loads(v)
             except ValueError:
                 continue
             if any(d == w for w in vals if w != v):
+                out.add((c["id"], i))
+    return out
+
+
+def has_shadow_member(val, prog):
+    sm = shadow_members(prog)
+    if not sm:
+        return False
+
+    def walk(x):
+        if isinstance(x, list):
+            if len(x) == 3 and x[0] == "m" and (x[1], x[2]) in sm:
                 return True
-    return False
+            return any(walk(y) for y in x)
+        return False
+    return walk(val)
 
 
 def witness(fid):
